@@ -100,6 +100,16 @@ pub fn gen_c12(rng: &mut Rng, tier: Tier) -> Result<Value, serde_json::Error> {
         if rng.bool() {
             o.insert("list".into(), json!([{"k": 1, "l": 2}, [{"m": {}}], "x"]));
         }
+        // exactly eight hidden members side by side; names that spell like paths of other nodes;
+        // an object under the empty name
+        if rng.bool() {
+            o.insert("octet".into(), json!({"m1": 1, "m2": 2, "m3": 3, "m4": 4, "m5": 5, "m6": 6, "m7": 7, "m8": 8}));
+        }
+        if rng.chance(1, 3) {
+            o.insert("profile.addr".into(), json!({"street": "other"}));
+            o.insert("list[0]".into(), json!({"k": 9}));
+            o.insert("".into(), json!({"nameless": {}}));
+        }
     }
     let strat = match rng.usize(5) {
         0 => Strat::Top,
@@ -848,7 +858,11 @@ pub fn execute_c16(scn_v: &Value) -> RunReport {
                         Out::Panic(_) => cx.rep.count("skipped_panic_is_c07"),
                     }
                 }
-                Out::Err { .. } => cx.rep.count("presentations_refused"),
+                Out::Err { variant, msg } => {
+                    // the holder cannot even read / select from what the issuer produced
+                    cx.rep.count("presentations_refused");
+                    cx.violate("C16", "values-preserved", "c16:holder_rejects_issued_sd_jwt".into(), BTreeMap::new(), json!({"issuance": j, "claims": is.claims, "holder": format!("{}: {}", variant, msg)}), scenario.clone());
+                }
                 Out::Panic(_) => cx.rep.count("skipped_panic_is_c07"),
             }
             if cx.rep.sample.is_none() {
